@@ -63,6 +63,8 @@ def crash_mechanism(crash):
 
 def run_shard(engine, params, base, first, count, prop, out=None):
     fn = get_engine(engine)
+    from .kernel import install_hang_watchdog
+    install_hang_watchdog()
     agg = {
         "engine": engine, "cases": 0, "crashed": 0, "counters": Counter(), "stats": Counter(),
         "nontrivial_hashes": [], "viol": [], "viol_count": Counter(), "samples": [], "crash_mech": Counter(),
@@ -103,7 +105,9 @@ def run_shard(engine, params, base, first, count, prop, out=None):
             mech = crash_mechanism(crash)
             agg["crash_mech"][mech] += 1
             if not r.get("expected_crash"):
-                chk = "livelock" if crash["type"] == "Livelock" else "crash"
+                chk = {"Livelock": "livelock", "Hang": "hang"}.get(crash["type"], "crash")
+                if chk == "hang":
+                    agg["counters"]["hangs"] += 1
                 r.setdefault("viol", []).append({"property": "C20", "check": chk, "mechanism": mech, "detail": crash})
                 key = f"C20|{chk}|{mech}"
                 r.setdefault("viol_count", {})[key] = r.get("viol_count", {}).get(key, 0) + 1
@@ -122,6 +126,10 @@ def run_shard(engine, params, base, first, count, prop, out=None):
                     v = dict(v)
                     v["spec"] = spec
                     agg["viol"].append(v)
+        if agg["counters"]["hangs"] >= 3:
+            # every hang costs a minute of wall clock: three witnesses are enough, the rest of the shard is not run
+            agg["counters"]["shards_cut_short_after_3_hangs"] += 1
+            break
         if len(agg["samples"]) < 2 and (nt.get(prop) or i == first + count - 1):
             agg["samples"].append({"spec": spec, "ops": r.get("sample_ops", [])[:30], "notes": r.get("sample_notes")})
         for k, v in r.get("extra", {}).items():
